@@ -40,6 +40,35 @@ def theorem_side(prop, tier="quick"):
     return True, info, ""
 
 
+def check_tables(names, workdir):
+    """Runs `driver tables` and evaluates coq/Check/Tables.v's checks for the named tables. The hooks must be compiled in
+    (otherwise the comparison is skipped and recorded as skipped)."""
+    os.makedirs(workdir, exist_ok=True)
+    if not HOOKS.get("on"):
+        return {"skipped": "verification hooks not compiled in: " + HOOKS.get("note", "")[:200]}
+    tv = os.path.join(workdir, "real_tables.v")
+    rc, out = sh([DRIVER, "tables", tv], timeout=600)
+    if rc != 0:
+        return {"failed": list(names), "detail": "driver tables failed: " + out[-500:]}
+    checks = {"scalar": "scalar_table_ok tbl_scalar", "rust_type": "rust_type_table_ok tbl_rust_type",
+              "vertex_format": "vertex_format_table_ok tbl_vertex_format", "buffer_binding": "buffer_binding_table_ok tbl_buffer_binding",
+              "storage_access": "storage_access_table_ok tbl_storage_access", "stages": "stages_table_ok tbl_stages"}
+    cv = os.path.join(workdir, "tables_check.v")
+    with open(cv, "w") as f:
+        f.write("From W2W Require Import Tables.\nOpen Scope string_scope. Open Scope list_scope.\n")
+        f.write(open(tv).read())
+        f.write("Eval vm_compute in (0%%N, [%s]).\n" % "; ".join(checks[n] for n in names))
+    rc, out = sh(["coqc", "-noglob", "-Q", COQ, "W2W", cv], timeout=900)
+    flat = " ".join(out.split())
+    mm = VERDICT_RE.search(flat)
+    if rc != 0 or not mm:
+        return {"failed": list(names), "detail": "table evaluation failed: " + out[-600:]}
+    toks = [t.strip() for t in mm.group(2).split(";") if t.strip()]
+    failed = [n for n, t in zip(names, toks) if t != "true"]
+    return {"tables": list(names), "exhaustive": True, "failed": failed,
+            "domain": "scalars 6 kinds x widths {1,2,4,8}; leaf types scalar/vector/matrix/atomic x 3 representations; 14 address spaces; 8 access sets; 8 stage sets"}
+
+
 def evaluate(prop, cases, workdir, tag):
     """Run cases through the real generator and Coq. Returns list of per-case records."""
     for i, c in enumerate(cases):
@@ -251,6 +280,14 @@ def main(prop_name, tier, seed, replay=None):
             break   # a later stage only makes sense when the earlier one holds (e.g. deeper call chains)
     viol, disag, wfbad, broken, ok = classify(prop, recs)
 
+    # exhaustive comparison of the leaf tables this property reads (driver tables, through the verification hooks)
+    tables_info = None
+    if getattr(prop, "TABLES", None) and not replay:
+        tables_info = check_tables(prop.TABLES, workdir)
+        if tables_info.get("failed"):
+            errors.append(("leaf tables", "the real crate's leaf table(s) %s differ from the model's on the exhaustively "
+                           "enumerated domain (coq/Check/Tables.v): %s" % (tables_info["failed"], tables_info.get("detail", ""))))
+
     known = [k for k in load_known_findings() if k.get("property") == prop.ID and k.get("status") == "open"]
     searched = 0
     if (disag or wfbad or broken or errors or not th_ok) and not viol and not replay:
@@ -347,6 +384,8 @@ def main(prop_name, tier, seed, replay=None):
         "repo_src_hash": repo_src_hash(),
         "known_findings_reported": sorted(reported_known),
     }
+    if tables_info is not None:
+        cov["leaf_tables"] = tables_info
     if hasattr(prop, "extra_coverage"):
         cov.update(prop.extra_coverage(recs))
     write_evidence(prop.ID, "thorough" if tier == "thorough" else "quick", seed, cov, time.time() - t0, violations,
